@@ -12,7 +12,8 @@ LEVEL_TEXT = ("Coq theorems over a Gallina model of DnsRecordExt::matches / supp
               "add_answer_with_additionals, add_answer_of_service, DnsCache::get_known_answers and DnsRecord::update_ttl: "
               "suppression iff same record (owner, type, class, RDATA; cache-flush bit ignored) and 2*listed TTL > own TTL "
               "(integer division characterised exactly), the whole response to any query = every unsuppressed answer with "
-              "its additionals and nothing of a suppressed one (subtype PTR, SRV, TXT, addresses), the known-answer list of a "
+              "its additionals and nothing of a suppressed one (subtype PTR, SRV, TXT, addresses), over ALL histories of the "
+              "daemon-level cache model every query lists exactly the prescribed known answers, the known-answer list of a "
               "query is exactly the shared records within their first half of life with TTL = remaining whole seconds "
               "(no u32 underflow). Tied to the Rust by regenerated parameters, by comparison with real record objects (K3) "
               "and with the real daemon in the simulated world on both sides (K6), with the statements run as monitors")
@@ -40,9 +41,13 @@ TRUSTED = [
 ]
 PARTIAL = ("the responder theorem is about the answer-assembly functions given the candidate answers of handle_query "
            "(candidate selection is modelled and checked by correspondence, its correctness is C06's subject); the querier "
-           "theorem is stated on the cache Vec (known_answers) and tied to whole daemon histories by the monitor, not by a "
-           "theorem over histories; legacy unicast queriers and multi-packet known-answer lists (TC bit) are not driven; "
-           "'the query goes out on every interface' is checked by the monitor on every observed query (each interface/family pair)")
+           "theorem C10_history_known_answers is over all histories of the daemon-level cache model (one browsed type, one "
+           "resolved host; every query of every reachable iteration lists exactly ka_of_spec of the cache after that "
+           "iteration's records) - the daemon around that layer is tied by the K6 correspondence and the monitor; the "
+           "rule it proves is the code's (half life counted from created/ttl), which differs from the property text for "
+           "records whose expiry was shortened (known finding C10-ka-shortened-record, C10_known_answers_shortened_refuted); "
+           "legacy unicast queriers and multi-packet known-answer lists (TC bit) are not driven; 'the query goes out on "
+           "every interface' is checked by the monitor on every observed query (each interface/family pair)")
 
 
 def generate(rng, tier):
